@@ -274,4 +274,26 @@ CHECKS["C10"] = {
     "level_note": "Trusted: the life segmentation of the input history in harness/c10_map.cpp; the alone run as the meaning of 'the function run alone'.",
 }
 
+CHECKS["C11"] = {
+    "title": "reduce equals the fold over exactly the currently valid elements",
+    "level": "model_checking",
+    "technique": "exhaustive enumeration of add/remove/update/growth histories on the real reduce_ node, result sampled in every cycle and compared "
+                 "with the fold of a reference container (bit-disjoint operands identify exactly which elements were folded)",
+    "design_ref": "DESIGN.md 2/C11",
+    "parts": [{"name": "reduce", "exe": "c11_reduce", "sources": ["c11_reduce.cpp"], "shards": 16}],
+    "rule": "inputs: scripted TSD<Int,TS<Int>> (set key to one of two bit-disjoint powers of two, erase, clear, bulk add of 6 keys crossing leaf "
+            "capacities 1->2->4->8->16; thorough: 70 more keys => > 64 live elements) and fixed TSL<TS<Int>,4> (unset slots are not live); "
+            "combiners: add_ operator, a static node, a sub-graph; zero = 2^20 or none; every sequence over T cycles of lists of <= L operations "
+            "(so every permutation of the same event multiset across cycles is included). Oracle, evaluated on a passive probe in EVERY cycle: "
+            "result invalid iff no live element and no zero; == zero if empty with zero; == value + zero for one live element with zero; otherwise "
+            "== sum of exactly the live elements with the zero bit clear. states = distinct result traces; transitions = result ticks; "
+            "non-trivial = >= 3 live elements and a cycle containing both a structural change and a value update.",
+    "bounds": {"quick": "add_: L<=2 x T=3 over 8 ops (+zero/-zero), L<=3 x T=2; node/sub-graph: L=1 x T=4 over 11 ops; TSL: L<=2 x T=3",
+               "thorough": "add_: L<=2 x T=3 over 11 ops, L=1 x T=5; node/sub-graph: L<=2 x T=3 and L=1 x T=5; > 64 live elements: L=1 x T=4"},
+    "min_counters": {"quick": {"nontrivial": 50000, "states": 3000, "reduce.cases_dgz": 5000}},
+    "assumptions": COMMON_ASSUMPTIONS + ["Non-associative (ordered) reduce, dynamic TSL and TSS inputs are not explored.", "Addition stands for 'an associative combiner'."],
+    "level_text": "Every execution of the bounded event-history space is validated cycle by cycle against the fold over a reference container.",
+    "level_note": "Trusted: the reference fold in harness/c11_reduce.cpp.",
+}
+
 NOT_APPLICABLE = {}
